@@ -57,11 +57,11 @@ Rx ==
          newBudget == [i \in Idx |-> budget[i] + SumPk(pks, Len(pks), fresh)[i]]
          d == Vec(e.dfr)
          newUsed == [i \in Idx |-> used[i] + d[i]]
-         nothing == (\A i \in Idx : d[i] = 0) /\ e.authed = 0
          ids == {<<pks[k].sp, pks[k].pn>> : k \in numbered}
          \* every genuine packet of this datagram is known to have been authenticated before
          \* (or there is none): whatever this datagram is, it carries nothing new
          stale == ids \subseteq settled
+         nothing == (\A i \in Idx : d[i] = 0) /\ (e.authed = 0 \/ (stale /\ numbered # {}))
      IN
        /\ seen' = seen \cup ids
        \* packets are settled once the connection authenticated every packet of their datagram
@@ -81,6 +81,9 @@ Rx ==
             \* (quinn counts an accepted Version Negotiation packet as "authenticated")
             \cup Flag(e.authed <= Len(pks) + (IF e.kind \in {"vn", "retry"} THEN 1 ELSE 0),
                        "AuthenticatedMoreThanDelivered")
+            \* a packet the connection has taken in before is not taken in again: it is not even counted
+            \* as authenticated (nor does it keep the connection alive - the state digest below)
+            \cup Flag((stale /\ numbered # {} /\ numbered = all /\ e.kind = "data") => e.authed = 0, "SettledPacketAuthenticatedAgain")
             \* nothing authenticated => nothing but counters changed (a stateless reset excepted)
             \cup Flag((nothing /\ stale /\ e.kind \notin {"reset", "retry", "vn"}) => e.same,
                        "StateChangedWithoutAuthenticPacket")
